@@ -10,11 +10,47 @@ ASSUMPTIONS = ['Node-side defaults for omitted cells are those of app/common/gri
                'trigger features of open findings are off in the main stream (see known_findings.jsonl)']
 REQUIRED = {'shadow_compares': {'quick': 300, 'thorough': 5000}, 'shadow_actions': {'quick': 1000, 'thorough': 20000}}
 
+# Stream B: bundles in which several actions touch the same rows/cells/columns (remove + re-add of a row id,
+# ReplaceTableData keeping ids, type + formula changes of one column, update followed by an upsert that looks
+# records up in mid-bundle, ...), with ReplaceTableData / upsert kinds and all invalid-action kinds switched on.
+WEIGHTS_B = {'replace_data': 1.5, 'upsert': 2}
+FLAGS_B = {'patterns': 0.35, 'invalid_off': ('short_bulk',)}
+
 def plan(tier, seed):
   n, steps = (16, 45) if tier == 'quick' else (192, 70)
-  return [{'hseed': seed * 100003 + i, 'steps': steps} for i in range(n)]
+  nb = 8 if tier == 'quick' else 96
+  return [{'witness': 'short_bulk_column'}] + [{'hseed': seed * 100003 + i, 'steps': steps} for i in range(n)] + \
+         [{'hseed': seed * 100003 + 50000 + i, 'steps': steps, 'stream': 'B'} for i in range(nb)]
+
+def witness_short_bulk_column(acc):
+  """Open finding: a BulkAddRecord user action whose column lists are shorter than the row-id list is accepted
+  (the missing cells get the default) and the stored action keeps the short list: it is malformed, an independent
+  interpreter cannot apply it. (Rejecting such requests breaks the repository's own test_import_actions, whose
+  fixture relies on it, so this is recorded, not repaired; the random streams do not generate the request.)"""
+  from vlib.client import EngineProc
+  from vlib.shadow import Shadow, ShadowError
+  with EngineProc() as p:
+    p.init_doc()
+    p.apply([['AddTable', 'T', [{'id': 'A', 'type': 'Int', 'isFormula': False}]]])
+    r, err = p.try_apply([['BulkAddRecord', 'T', [None, None], {'A': [1]}]])
+    acc.count('witness_runs')
+    if r is not None:
+      for a in r.stored:
+        if a[0] == 'BulkAddRecord' and any(len(v) != len(a[2]) for v in a[3].values()):
+          acc.violation('short_bulk_column', 'witness: stored %r carries %s values for %d rows' % (
+              a[:3], {c: len(v) for c, v in a[3].items()}, len(a[2])), {'stored': r.stored})
+
 
 def run_shard(spec, acc):
+  if spec.get('witness'):
+    return globals()['witness_' + spec['witness']](acc)
   mon = histories.ShadowMonitor()
-  h = histories.History(acc, spec['hseed'], [mon], spec['steps'], avoid_open_triggers=False)
+  if spec.get('stream') == 'B':
+    h = histories.History(acc, spec['hseed'], [mon], spec['steps'], weights=WEIGHTS_B, flags=FLAGS_B,
+                          avoid_open_triggers=False)
+    acc.count('stream_B_histories')
+  else:
+    h = histories.History(acc, spec['hseed'], [mon], spec['steps'], avoid_open_triggers=False)
   h.run()
+  for k, v in getattr(h.gen, 'pattern_counts', {}).items():
+    acc.count('pattern.' + k, v)
